@@ -180,6 +180,9 @@ func (a Alphabet) GenPipeIDs(r *rt.Rand) []string {
 	for i := 0; i < nf; i++ {
 		if len(ids) > 0 && r.Intn(100) < a.DupIDs {
 			ids = append(ids, ids[r.Intn(len(ids))])
+		} else if r.Intn(100) < 15 && len(a.Sinks) > 0 {
+			// inner positions are not type-checked: a sink- or formatter-typed node may sit in the middle
+			ids = append(ids, rt.Pick(r, append(append([]string{}, a.Sinks...), a.Fmts...)))
 		} else if len(a.Filters) > 0 {
 			ids = append(ids, rt.Pick(r, a.Filters))
 		}
